@@ -433,6 +433,22 @@ def canon(x):
 # running the real code
 # --------------------------------------------------------------------------------------------
 
+def position_of(e) -> list | None:
+    """[file name, line, column] of a diagnostic that carries a position (what its message has to name)"""
+    p = getattr(e, "position", None)
+    if p is None or getattr(p, "file", None) is None or getattr(p, "start", None) is None:
+        return None
+    return [Path(str(p.file)).name, p.start.line, p.start.col]
+
+
+def first_position(e: BaseException) -> list | None:
+    """position of the first reported error of what was raised"""
+    items = getattr(e, "items", None)
+    if isinstance(items, list):
+        return position_of(items[0]) if items else None
+    return position_of(e)
+
+
 def classify(e: BaseException) -> dict:
     from pydjinni.exceptions import ApplicationException, ApplicationExceptionList
     tb = traceback.extract_tb(e.__traceback__)
